@@ -34,6 +34,8 @@ type Phase struct {
 	Body    func(c *explore.C) // E1 harness body (nil when Custom is set)
 	Custom  func(p *PhaseCtx)  // E2/E3 engines report through PhaseCtx
 	NoShard bool               // run in a single worker
+	Gate    bool               // the body calls c.Gate(): shard by hash of the leading choices
+	Race    bool               // run this phase in the race-detector build of the checker ($VERIF_RACE_BIN)
 	Rule    string             // how cases are enumerated, what makes an outcome distinct
 }
 
@@ -208,6 +210,9 @@ type Case struct {
 
 // ---- command line ------------------------------------------------------------
 
+// RaceBuild is set by package checks: whether this binary carries the race detector.
+var RaceBuild bool
+
 var (
 	VerifDir = "/verif"
 	OutDir   = "/verif"
@@ -280,7 +285,8 @@ func runWorker(ck *Check, tier universe.Tier, spec, out string, budget time.Dura
 	}
 	runtime.GOMAXPROCS(1)
 	debug.SetPanicOnFault(true)
-	if lim := os.Getenv("VERIF_WORKER_AS"); lim != "0" {
+	debug.SetGCPercent(400) // the per-execution state reset allocates 512 KB: collect less often
+	if lim := os.Getenv("VERIF_WORKER_AS"); lim != "0" && !RaceBuild {
 		var as uint64 = 12 << 30
 		if lim != "" {
 			if x, err := strconv.ParseUint(lim, 10, 64); err == nil {
@@ -312,7 +318,7 @@ func runWorker(ck *Check, tier universe.Tier, spec, out string, budget time.Dura
 		if ph.Custom != nil {
 			ph.Custom(&PhaseCtx{Tier: tier, Shard: shard, N: n, Deadline: deadline, R: res})
 		} else {
-			e := &explore.Explorer{Bound: ph.Bound, Shard: shard, NShards: n, Deadline: deadline}
+			e := &explore.Explorer{Bound: ph.Bound, Shard: shard, NShards: n, Deadline: deadline, GateSharding: ph.Gate}
 			e.Run(ph.Body)
 			res.Executions = e.Stats.Executions
 			res.States = e.Stats.Nodes
@@ -457,6 +463,14 @@ func runCheck(ck *Check, tier universe.Tier, tierS string, nworkers int, budget 
 		if ph.NoShard {
 			n = 1
 		}
+		bin := self
+		if ph.Race {
+			bin = os.Getenv("VERIF_RACE_BIN")
+			if bin == "" {
+				results = append(results, &PhaseResult{Phase: ph.Name, Classes: map[string]int64{}, CapHit: "race-detector build of the checker not available: phase skipped"})
+				continue
+			}
+		}
 		remaining := time.Until(deadline)
 		// share the remaining budget evenly over the remaining phases
 		per := remaining / time.Duration(len(phases)-pi)
@@ -471,8 +485,11 @@ func runCheck(ck *Check, tier universe.Tier, tierS string, nworkers int, budget 
 			go func(s int) {
 				defer wg.Done()
 				out := filepath.Join(tmp, fmt.Sprintf("%s-%d.json", ph.Name, s))
-				cmd := exec.Command(self, ck.ID, "--tier", tierS, "--worker", fmt.Sprintf("%s:%d/%d", ph.Name, s, n), "--out", out, "--budget", per.String())
-				cmd.Env = append(os.Environ(), "GOMAXPROCS=1", "GODEBUG=madvdontneed=1")
+				cmd := exec.Command(bin, ck.ID, "--tier", tierS, "--worker", fmt.Sprintf("%s:%d/%d", ph.Name, s, n), "--out", out, "--budget", per.String())
+				cmd.Env = append(os.Environ(), "GOMAXPROCS=1", "GORACE=halt_on_error=1 exitcode=66")
+				if ph.Race {
+					cmd.Env = append(cmd.Env, "VERIF_WORKER_AS=0") // the race runtime maps a huge shadow region
+				}
 				outb, err := cmd.CombinedOutput()
 				mu.Lock()
 				defer mu.Unlock()
@@ -487,9 +504,14 @@ func runCheck(ck *Check, tier universe.Tier, tierS string, nworkers int, budget 
 					}
 					var ch []int
 					if json.Unmarshal([]byte(line), &ch) == nil && len(ch) > 0 {
-						total.Failures = append(total.Failures, &FailureRec{Property: ck.ID, Phase: ph.Name, Class: "worker-death",
-							Msg: "worker process died (fatal error, fault or out-of-memory) while executing this case: " + firstLine(tail), Choices: ch,
-							Case: map[string]interface{}{"class": "worker-death", "output": tail}})
+						class, what := "worker-death", "worker process died (fatal error, fault or out-of-memory) while executing this case: "+firstLine(tail)
+						if strings.Contains(string(outb), "WARNING: DATA RACE") {
+							class, what = "data-race", "the race detector reports a data race on this schedule: "+raceSummary(string(outb))
+							tail = raceReport(string(outb))
+						}
+						total.Failures = append(total.Failures, &FailureRec{Property: ck.ID, Phase: ph.Name, Class: class,
+							Msg: what, Choices: ch,
+							Case: map[string]interface{}{"class": class, "output": tail}})
 					} else {
 						total.HarnessErr = fmt.Sprintf("worker %d of phase %s died without a breadcrumb: %v\n%s", s, ph.Name, err, tail)
 					}
@@ -549,7 +571,11 @@ func runCheck(ck *Check, tier universe.Tier, tierS string, nworkers int, budget 
 			printed[key] = true
 			// write the replay artefact, confirm it in fresh processes
 			path := writeReplay(ck, tierS, f)
-			conf := confirm(self, ck.ID, tierS, path, 5)
+			cbin := self
+			if p := findPhase(ck, tier, f.Phase); p != nil && p.Race && os.Getenv("VERIF_RACE_BIN") != "" {
+				cbin = os.Getenv("VERIF_RACE_BIN")
+			}
+			conf := confirm(cbin, ck.ID, tierS, path, 5)
 			if conf == 0 {
 				harnessErrs = append(harnessErrs, fmt.Sprintf("failure did not reproduce in any of 5 fresh-process replays (treated as harness error, not a violation): %s replay=%s", f.Msg, path))
 				continue
@@ -585,6 +611,34 @@ func runCheck(ck *Check, tier universe.Tier, tierS string, nworkers int, budget 
 	}
 	fmt.Printf("OK property=%s tier=%s wall=%.1fs\n", ck.ID, tierS, wall)
 	return 0
+}
+
+// raceReport extracts the race detector's report from a worker's output.
+func raceReport(s string) string {
+	i := strings.Index(s, "WARNING: DATA RACE")
+	if i < 0 {
+		return ""
+	}
+	s = s[i:]
+	if j := strings.Index(s, "=================="); j > 0 {
+		s = s[:j]
+	}
+	if len(s) > 3000 {
+		s = s[:3000] + "…"
+	}
+	return s
+}
+
+// raceSummary names the two conflicting accesses (first frame of each stack).
+func raceSummary(s string) string {
+	var parts []string
+	lines := strings.Split(raceReport(s), "\n")
+	for i, l := range lines {
+		if (strings.HasPrefix(l, "Write at") || strings.HasPrefix(l, "Read at") || strings.HasPrefix(l, "Previous write at") || strings.HasPrefix(l, "Previous read at")) && i+1 < len(lines) {
+			parts = append(parts, strings.TrimSpace(strings.SplitN(l, " by ", 2)[0])+" in "+strings.TrimSpace(lines[i+1]))
+		}
+	}
+	return strings.Join(parts, " / ")
 }
 
 func firstLine(s string) string {
@@ -625,7 +679,7 @@ func confirm(self, id, tierS, path string, times int) int {
 	ok := 0
 	for i := 0; i < times; i++ {
 		cmd := exec.Command(self, id, "--tier", tierS, "--replay", path)
-		cmd.Env = append(os.Environ(), "GOMAXPROCS=1", "VERIF_QUIET=1")
+		cmd.Env = append(os.Environ(), "GOMAXPROCS=1", "VERIF_QUIET=1", "GORACE=halt_on_error=1 exitcode=66")
 		err := cmd.Run()
 		if err != nil {
 			if ee, isExit := err.(*exec.ExitError); isExit && ee.ExitCode() == 4 {
@@ -654,12 +708,22 @@ func runReplay(ck *Check, tier universe.Tier, path string, verbose bool) int {
 		tier = universe.Quick
 	}
 	ph := findPhase(ck, tier, rf.Phase)
+	if ph != nil && ph.Race && !RaceBuild {
+		if rb := os.Getenv("VERIF_RACE_BIN"); rb != "" {
+			os.Setenv("GORACE", "halt_on_error=1 exitcode=66")
+			err := syscall.Exec(rb, append([]string{rb}, os.Args[1:]...), os.Environ())
+			fmt.Fprintln(os.Stderr, "exec of the race build failed:", err)
+			return 4
+		}
+	}
 	if ph == nil || ph.Body == nil {
 		fmt.Fprintf(os.Stderr, "phase %q cannot be replayed\n", rf.Phase)
 		return 4
 	}
 	debug.SetPanicOnFault(true)
-	syscall.Setrlimit(syscall.RLIMIT_AS, &syscall.Rlimit{Cur: 12 << 30, Max: 12 << 30})
+	if !RaceBuild {
+		syscall.Setrlimit(syscall.RLIMIT_AS, &syscall.Rlimit{Cur: 12 << 30, Max: 12 << 30})
+	}
 	quiet := os.Getenv("VERIF_QUIET") != ""
 	// replay twice: the same schedule must produce the same observation
 	f1, o1 := explore.ReplayOnce(rf.Choices, ph.Body)
